@@ -143,6 +143,9 @@ type twkbWriter struct {
 	idList []int64
 
 	closeRings bool
+
+	// err is the first error encountered while writing coordinates.
+	err error
 }
 
 func newtwkbWriter(
@@ -222,6 +225,9 @@ func (w *twkbWriter) formTWKB() []byte {
 func (w *twkbWriter) writeGeometry(g Geometry) error {
 	if err := w.writeGeometryByType(g); err != nil {
 		return err
+	}
+	if w.err != nil {
+		return w.err
 	}
 	w.writeAdditionalHeaders()
 	return nil
@@ -550,7 +556,12 @@ func (w *twkbWriter) writePointArray(numPoints int, coords []float64) {
 	for i := 0; i < numPoints; i++ {
 		for d := 0; d < w.dimensions; d++ {
 			fval := coords[c]
-			ival := int64(math.Round(fval * w.scalings[d]))
+			scaled := math.Round(fval * w.scalings[d])
+			if !(scaled >= math.MinInt64 && scaled < math.MaxInt64) && w.err == nil {
+				// Also catches NaN. Converting to int64 would give an arbitrary value.
+				w.err = fmt.Errorf("coordinate %v cannot be represented with the requested TWKB precision", fval)
+			}
+			ival := int64(scaled)
 			// Compute bounding box.
 			switch {
 			case !w.bboxValid:
